@@ -7,6 +7,8 @@ CONSTANTS
   SPeriod = 1
   Discipline = "threads"
   MaxNest = 2
+  LoopForever = FALSE
+  FastPathChecksAtomicQ = TRUE
   Sleeper = TRUE
 INVARIANT Safety
 POSTCONDITION TraceAccepted
